@@ -14,6 +14,11 @@ func ReadRequest(r io.Reader) (apiVersion int16, correlationID int32, clientID s
 		return
 	}
 
+	if size < 0 {
+		err = fmt.Errorf("invalid negative frame size: %d", size)
+		return
+	}
+
 	d.remain = int(size)
 	apiKey := ApiKey(d.readInt16())
 	apiVersion = d.readInt16()
@@ -48,13 +53,13 @@ func ReadRequest(r io.Reader) (apiVersion int16, correlationID int32, clientID s
 
 	if req.flexible {
 		// In the flexible case, there's a tag buffer at the end of the request header
-		taggedCount := int(d.readUnsignedVarInt())
-		for i := 0; i < taggedCount; i++ {
+		taggedCount := d.readTaggedFieldCount()
+		for i := 0; i < taggedCount && d.err == nil; i++ {
 			d.readUnsignedVarInt() // tagID
-			size := d.readUnsignedVarInt()
+			size := d.readTaggedFieldSize()
 
 			// Just throw away the values for now
-			d.read(int(size))
+			d.read(size)
 		}
 	}
 
